@@ -27,7 +27,7 @@ RULE = ("Scenarios: first write, overwrite, overwrite with larger / smaller payl
 ASSUME = ["a crash is modelled as process death (os._exit / SIGKILL): data handed to the kernel survives; power-loss reordering below the file "
           "system is not modelled", "sidecars that are valid JSON but not an object are outside 'not valid JSON' and not generated",
           "old / new reference states come from uncut runs of the real code in the same pre-state"]
-BUDGET = {"quick": {"scenarios": 12, "byte_step": 2, "strace_scenarios": 8, "corrupt_step": 2},
+BUDGET = {"quick": {"scenarios": 14, "byte_step": 2, "strace_scenarios": 8, "corrupt_step": 2},
           "thorough": {"scenarios": 40, "byte_step": 1, "strace_scenarios": 40, "corrupt_step": 1}}
 NSHARDS = 8
 
@@ -79,6 +79,7 @@ def scenarios(al, n):
         {"name": "create_with_data", "pre": [], "op": ("create", "F1", {"k1": "NEW"})},
         {"name": "folder_entity", "pre": [("create", "V", {"k1": "OLD"})], "op": ("set", "V", {"k1": "NEW", "k2": "N2"})},
         {"name": "pair_sibling", "pre": [("create", "F1", {"k1": "OLD"}), ("create", "F2", None)], "op": ("set", "F2", {"k2": "NEW"})},
+        {"name": "set_attribute_and_kwargs", "pre": [("create", "F1", {"k1": "OLD", "k2": "OLD2"})], "op": ("setmixed", "F1", {"k1": "NEW", "k2": "N2"})},
         {"name": "task_folder", "pre": [("create", "T", {"a": 1, "b": [1, 2], "c": {"d": "e"}})], "op": ("update", "T", {"b": [3], "z": "new"})},
     ]
     out = list(base)
@@ -100,6 +101,9 @@ def apply_op(writer, al, op):
     e = al[role]
     if kind == "create":
         return writer.create(e, data) if data else writer.create(e)
+    if kind == "setmixed":
+        items = list(data.items())      # set(sid, attribute, value, **kwargs): ONE logical write
+        return writer.set(e, items[0][0], items[0][1], **dict(items[1:]))
     if kind == "set":
         return writer.set(e, **data)
     return writer.update(e, data)
